@@ -30,13 +30,13 @@ EXPLANATION = (
     "shift is < 60 s / 1 h / 1 day and therefore minimal; for weekday, day-of-month and "
     "day-of-year targets the result is the first later day with that field (minimality by "
     "a universally quantified ghost date), time of day unchanged, termination by variant "
-    "for targets present in every month/year; week plus weekday targets (weeks 1..SUM//7, which every year has): the first later day of that ISO week and weekday (minimality by a ghost week-year and week), termination by variant. TimePoint.__add__ with a truncated operand: "
+    "for targets present in every month/year; week plus weekday targets (weeks 1..SUM//7, which every year has): the first later day of that ISO week and weekday (minimality by a ghost week-year and week), termination by variant; COMBINED designators hour + day-of-month and hour + weekday: the hour is matched first, then the day, and no earlier date-time >= p has both (ghost date over both loops). TimePoint.__add__ with a truncated operand: "
     "fields are matched in t's own offset when it has one (else p's), result in p's "
     "offset; either operand order gives the same result and applying t again is the "
     "identity (ghost program). Targets that do not exist in every period (day 29-31, "
     "day 366, week 52/53): PARTIAL correctness proved with the same invariants (valid result, fields as "
     "asked, earliest) - cases *:dom-late, *:doy-late, *:ww-dow-late, variants not generated. BOUNDED: "
-    "termination for those targets and combined time+day "
+    "termination for those targets and the other combined time+day "
     "designators: native runs with a time limit.")
 ASSUMPTIONS = [
     "termination for sometimes-absent targets is not a generated obligation (bounded)",
